@@ -232,8 +232,8 @@ func (p *twkbParser) parseTypeAndPrecision() error {
 	p.kind = twkbGeometryType(typeprec & 0x0f)
 	p.precXY = int(decodeZigZagInt64(uint64(typeprec) >> 4))
 
-	p.scalings[0] = math.Pow10(p.precXY) // X
-	p.scalings[1] = math.Pow10(p.precXY) // Y
+	p.scalings[0] = twkbScaling(p.precXY) // X
+	p.scalings[1] = twkbScaling(p.precXY) // Y
 	return nil
 }
 
@@ -337,15 +337,15 @@ func (p *twkbParser) parseBBoxHeader() (ExtendedEnvelope, error) {
 	}
 	switch {
 	case p.hasZ && p.hasM:
-		minX := float64(p.bbox[0]) / p.scalings[0]
-		minY := float64(p.bbox[2]) / p.scalings[1]
-		minZ := float64(p.bbox[4]) / p.scalings[2]
-		minM := float64(p.bbox[6]) / p.scalings[3]
+		minX := p.unscale(p.bbox[0], 0)
+		minY := p.unscale(p.bbox[2], 1)
+		minZ := p.unscale(p.bbox[4], 2)
+		minM := p.unscale(p.bbox[6], 3)
 
-		maxX := float64(p.bbox[0]+p.bbox[1]) / p.scalings[0]
-		maxY := float64(p.bbox[2]+p.bbox[3]) / p.scalings[1]
-		maxZ := float64(p.bbox[4]+p.bbox[5]) / p.scalings[2]
-		maxM := float64(p.bbox[6]+p.bbox[7]) / p.scalings[3]
+		maxX := p.unscale(p.bbox[0]+p.bbox[1], 0)
+		maxY := p.unscale(p.bbox[2]+p.bbox[3], 1)
+		maxZ := p.unscale(p.bbox[4]+p.bbox[5], 2)
+		maxM := p.unscale(p.bbox[6]+p.bbox[7], 3)
 
 		return ExtendedEnvelope{
 			XYEnvelope: NewEnvelope(XY{minX, minY}, XY{maxX, maxY}),
@@ -353,37 +353,37 @@ func (p *twkbParser) parseBBoxHeader() (ExtendedEnvelope, error) {
 			MRange:     NewInterval(minM, maxM),
 		}, nil
 	case p.hasZ:
-		minX := float64(p.bbox[0]) / p.scalings[0]
-		minY := float64(p.bbox[2]) / p.scalings[1]
-		minZ := float64(p.bbox[4]) / p.scalings[2]
+		minX := p.unscale(p.bbox[0], 0)
+		minY := p.unscale(p.bbox[2], 1)
+		minZ := p.unscale(p.bbox[4], 2)
 
-		maxX := float64(p.bbox[0]+p.bbox[1]) / p.scalings[0]
-		maxY := float64(p.bbox[2]+p.bbox[3]) / p.scalings[1]
-		maxZ := float64(p.bbox[4]+p.bbox[5]) / p.scalings[2]
+		maxX := p.unscale(p.bbox[0]+p.bbox[1], 0)
+		maxY := p.unscale(p.bbox[2]+p.bbox[3], 1)
+		maxZ := p.unscale(p.bbox[4]+p.bbox[5], 2)
 
 		return ExtendedEnvelope{
 			XYEnvelope: NewEnvelope(XY{minX, minY}, XY{maxX, maxY}),
 			ZRange:     NewInterval(minZ, maxZ),
 		}, nil
 	case p.hasM:
-		minX := float64(p.bbox[0]) / p.scalings[0]
-		minY := float64(p.bbox[2]) / p.scalings[1]
-		minM := float64(p.bbox[4]) / p.scalings[2]
+		minX := p.unscale(p.bbox[0], 0)
+		minY := p.unscale(p.bbox[2], 1)
+		minM := p.unscale(p.bbox[4], 2)
 
-		maxX := float64(p.bbox[0]+p.bbox[1]) / p.scalings[0]
-		maxY := float64(p.bbox[2]+p.bbox[3]) / p.scalings[1]
-		maxM := float64(p.bbox[4]+p.bbox[5]) / p.scalings[2]
+		maxX := p.unscale(p.bbox[0]+p.bbox[1], 0)
+		maxY := p.unscale(p.bbox[2]+p.bbox[3], 1)
+		maxM := p.unscale(p.bbox[4]+p.bbox[5], 2)
 
 		return ExtendedEnvelope{
 			XYEnvelope: NewEnvelope(XY{minX, minY}, XY{maxX, maxY}),
 			MRange:     NewInterval(minM, maxM),
 		}, nil
 	default:
-		minX := float64(p.bbox[0]) / p.scalings[0]
-		minY := float64(p.bbox[2]) / p.scalings[1]
+		minX := p.unscale(p.bbox[0], 0)
+		minY := p.unscale(p.bbox[2], 1)
 
-		maxX := float64(p.bbox[0]+p.bbox[1]) / p.scalings[0]
-		maxY := float64(p.bbox[2]+p.bbox[3]) / p.scalings[1]
+		maxX := p.unscale(p.bbox[0]+p.bbox[1], 0)
+		maxY := p.unscale(p.bbox[2]+p.bbox[3], 1)
 
 		return ExtendedEnvelope{
 			XYEnvelope: NewEnvelope(XY{minX, minY}, XY{maxX, maxY}),
@@ -671,7 +671,7 @@ func (p *twkbParser) parsePointArray(numPoints int) ([]float64, error) {
 			}
 
 			p.refpoint[d] += val // Reverse coord differencing to find the true value.
-			coords[c] = float64(p.refpoint[d]) / p.scalings[d]
+			coords[c] = p.unscale(p.refpoint[d], d)
 			c++
 		}
 	}
@@ -706,6 +706,15 @@ func (p *twkbParser) parseUnsignedVarint() (uint64, error) {
 	}
 	p.pos += n // Have now read the varint.
 	return val, nil
+}
+
+// unscale converts an integer grid value of dimension d back to a coordinate.
+// See twkbScaling.
+func (p *twkbParser) unscale(ival int64, d int) float64 {
+	if d < 2 && p.precXY < 0 {
+		return float64(ival) * p.scalings[d]
+	}
+	return float64(ival) / p.scalings[d]
 }
 
 func (p *twkbParser) parseSignedVarint() (int64, error) {
